@@ -657,3 +657,57 @@ Definition int_frame (g : fn) (z : string -> Z) (cbs : list (string * cfn)) : fr
   mkframe (map (fun x => (x, VInt (z x))) (fseeds g)) (own_de g) cbs.
 Definition gen_frame (g : fn) (k : string -> nat) (cbs : list (string * cfn)) : frame :=
   mkframe (map (fun x => (x, VGenExt (k x))) (fseeds g)) (own_de g) cbs.
+
+(* callbacks of an entry frame: all supplied by the user, or all left at their defaults (not for an exempted function) *)
+Definition entry_cbs (exempt : list (string * string)) (g : fn) (cbs : list (string * cfn)) : Prop :=
+  cbs = user_cbs g \/ (cbs = default_cbs g /\ lookup exempt (fname g) = None).
+Definition noseed_frame (g : fn) (cbs : list (string * cfn)) : frame := mkframe [] (own_de g) cbs.
+
+(* ------------------------------------------------------------------------------------------------ *)
+(* 5. Small skeletons and a concrete world for the non-vacuity examples of Properties/C10.v           *)
+(* ------------------------------------------------------------------------------------------------ *)
+
+Definition ex_U : dloc -> list string := fun _ => ["m"; "t"].
+
+(* seed -> generator; info reset before it is read; the generator and info handed to a helper; timing stored *)
+Definition ex_f_body (helper : string) : cmd :=
+  Seq (Ev (MkGen "rand" "seed")) (Seq (Ev (Reset 0 "info" ["m"])) (Seq (Ev (DrawFrom 1 "rand"))
+  (Seq (Ev (Call 2 helper [("rand", SVar "rand")] [("info", DVar "info")] []))
+  (Seq (Ev (Read "info" "m")) (Seq (Ev (WriteT "info" "t")) Return))))).
+Definition ex_f : fn := mkfn "ex.f" true ["seed"] true ["info"] [] [] (ex_f_body "ex.h").
+Definition ex_h : fn := mkfn "ex.h" false ["rand"] false [] ["info"] []
+  (Seq (Ev (DrawFrom 3 "rand")) (Seq (Ev (Read "info" "m")) (Seq (Ev (Call 4 "ex.h2" [] [] [])) Return))).
+Definition ex_h2 : fn := mkfn "ex.h2" false [] false [] [] [] Return.
+Definition ex_api_ok : list fn := [ex_f; ex_h; ex_h2].
+(* the same, but the helper of the helper draws from the global generator (two levels down) *)
+Definition ex_h2_global : fn := mkfn "ex.h2" false [] false [] [] [] (Seq (Ev (GlobalDraw 5)) Return).
+Definition ex_api_global : list fn := [ex_f; ex_h; ex_h2_global].
+(* info read before it is reset *)
+Definition ex_f_readfirst : fn := mkfn "ex.f" true ["seed"] true ["info"] [] []
+  (Seq (Ev (MkGen "rand" "seed")) (Seq (Ev (Read "info" "m")) (Seq (Ev (Reset 0 "info" ["m"])) Return))).
+Definition ex_api_readfirst : list fn := [ex_f_readfirst].
+(* a draw from a generator that was made from seed=None *)
+Definition ex_f_none : fn := mkfn "ex.f" true ["seed"] true [] [] []
+  (Seq (Ev (MkGenNone "rand")) (Seq (Ev (DrawFrom 1 "rand")) Return)).
+
+(* a concrete world: generator states and values are numbers; a draw returns the state and increments it *)
+Definition ex_world (g : nat) (m : option nat) : state nat nat :=
+  mkstate nat nat g 1000 2000 (fun k => 10 * k) (fun l k => if String.eqb k "m" then m else None) [] [].
+Definition ex_run_in (U : dloc -> list string) (api : list fn) (fuel mode : nat) (g : fn) (fr : frame) (w : state nat nat)
+  : option (flag * list (obs nat) * nat) :=
+  match exec nat nat (fun _ _ s => (s, Datatypes.S s)) (fun s h => Nat.even ((s + List.length h) / (1 + mode) + mode))
+             (fun s _ h => Some (s + List.length h)) (fun _ d => d) Z.to_nat (fun e => (e, Datatypes.S e))
+             (fun c => (c, Datatypes.S c)) U api fuel (fbody g) fr w with
+  | Some (f, _, w') => Some (f, hist nat nat w', gs nat nat w')
+  | None => None
+  end.
+Definition ex_run (api : list fn) := ex_run_in ex_U api 20 0.
+Definition has_draw (h : list (obs nat)) : bool := existsb (fun o => match o with ODraw _ => true | _ => false end) h.
+(* g is exported, takes an integer seed, and for one of six decision oracles its run with seed 7 in the concrete world
+   returns normally and draws at least once *)
+Definition runs_and_draws (U : dloc -> list string) (api : list fn) (g : fn) : bool :=
+  fexported g && fint_ok g &&
+  existsb (fun mode => match ex_run_in U api 300 mode g (int_frame g (fun _ => 7%Z) (user_cbs g)) (ex_world 5 None) with
+                       | Some (FRet, h, _) => has_draw h
+                       | _ => false
+                       end) [0; 1; 2; 3; 4; 5].
